@@ -38,7 +38,7 @@ def run_miri(job):
     return rc, out
 
 def asan_bin():
-    return os.path.join(HERE, "target", TARGET, "debug", "memsim")
+    return os.path.join(os.environ.get("CARGO_TARGET_DIR") or os.path.join(HERE, "target"), TARGET, "debug", "memsim")
 
 def run_asan(job):
     e = dict(os.environ)
